@@ -166,7 +166,9 @@ def absolute_trigger_cases():
     computed here from the text (floating = wall time in the local zone), not read back from the library"""
     wall = datetime(2024, 6, 1, 12, 30)
     for form in ("floating", "utc", "zoned"):
-        for local in (None, "Europe/Berlin", "America/New_York", "Asia/Tokyo"):
+        # the local zone as a name, and as a tzinfo OBJECT of either family whatever the active provider is
+        for local in (None, "Europe/Berlin", "America/New_York", "Asia/Tokyo", "obj:zoneinfo:Europe/Berlin", "obj:pytz:Europe/Berlin",
+                      "obj:pytz:America/New_York", "obj:fixed:+05:30"):
             for delta_h in (-9, -3, -1, 0, 1, 3, 9):
                 yield form, local, delta_h, wall
 
@@ -174,6 +176,16 @@ def absolute_trigger_cases():
 def check_absolute(form, local, delta_h, wall):
     import icalendar
     from zoneinfo import ZoneInfo
+    local_obj = local
+    if isinstance(local, str) and local.startswith("obj:"):
+        _, fam, name = local.split(":", 2)
+        if fam == "zoneinfo":
+            local_obj, local = ZoneInfo(name), name
+        elif fam == "pytz":
+            import pytz
+            local_obj, local = pytz.timezone(name), name
+        else:
+            local_obj, local = timezone(timedelta(hours=5, minutes=30)), "Asia/Kolkata"
     if form == "floating":
         tzid, text = "", wall.strftime("%Y%m%dT%H%M%S")
         instant = None if local is None else wall.replace(tzinfo=ZoneInfo(local))
@@ -188,9 +200,12 @@ def check_absolute(form, local, delta_h, wall):
     c = icalendar.Component.from_ical(ABS_EVENT.format(dtstamp=fmt(dtstamp), tzid=tzid, trigger=text).replace("\n", "\r\n"))
     al = c.alarms
     if local is not None:
-        al.set_local_timezone(local)
+        al.set_local_timezone(local_obj)
     out = []
-    times = al.times
+    try:
+        times = al.times
+    except Exception as e:  # noqa  (computing the times of an absolute trigger needs no further information: nothing may be raised)
+        return [("absolute", f"absolute trigger {text}{tzid or ''} with local zone {local_obj!r}: alarms.times raises {type(e).__name__}: {e}")]
     if len(times) != 1:
         return [("absolute", f"{len(times)} alarm times for one absolute alarm")]
     at = times[0]
